@@ -128,8 +128,59 @@ theorem createDagGen_eq (kindOf : Nat → AKind) (P : Project) (cfg : Cfg)
   simp [upd, getG, cyclesWholeGraph, modifyInPlace, selectMark, baseGraphGen_eq, sharedProductGen_eq, deselectedGen_eq,
     modifyDagGen_eq kindOf P _ h]
   by_cases h1 : (baseGraph P).hasCycle = true <;> simp [h1, upd]
-  by_cases h2 : sharedProduct (baseGraph P) = true <;> simp [h2]
-  by_cases h3 : (modifyDag P (baseGraph P)).hasCycle = true <;> simp [h3]
+  by_cases h2 : sharedProduct (baseGraph P) = true <;> simp [h2, upd]
+  by_cases h3 : (modifyDag P (baseGraph P)).hasCycle = true <;> simp [h3, upd]
+
+/-! ### the PythonNode-wrapper edge (outside the static model, for arbitrary `wrap`) -/
+
+theorem foldl_edges_mono {α} (f : G → α → G) (e : Nat × Nat) (hmono : ∀ g a, e ∈ g.edges → e ∈ (f g a).edges) :
+    ∀ (l : List α) (g : G), e ∈ g.edges → e ∈ (l.foldl f g).edges
+  | [], _, h => h
+  | a :: l, g, h => foldl_edges_mono f e hmono l _ (hmono g a h)
+
+theorem foldl_edges_has {α} (f : G → α → G) (e : Nat × Nat) (hmono : ∀ g a, e ∈ g.edges → e ∈ (f g a).edges) :
+    ∀ (l : List α) (g : G) (a : α), a ∈ l → (∀ g, e ∈ (f g a).edges) → e ∈ (l.foldl f g).edges
+  | [], _, _, h, _ => by cases h
+  | b :: l, g, a, h, ha => by
+    rcases List.mem_cons.1 h with rfl | h
+    · exact foldl_edges_mono f e hmono l _ (ha g)
+    · exact foldl_edges_has f e hmono l _ a h ha
+
+theorem nodeOp_mono (wrap : Nat → Option Nat) (t : TaskSpec) (d : Nat) (e : Nat × Nat) (g : G) (op : NodeOp)
+    (h : e ∈ g.edges) : e ∈ (nodeOp wrap t d g op).edges := by
+  cases op <;> simp only [nodeOp]
+  · simpa using h
+  · exact G.mem_addEdge_edges.2 (Or.inl h)
+  · exact G.mem_addEdge_edges.2 (Or.inl h)
+  · cases wrap d with
+    | none => exact h
+    | some d' => exact G.mem_addEdge_edges.2 (Or.inl h)
+
+theorem createStep_mono (wrap : Nat → Option Nat) (t : TaskSpec) (e : Nat × Nat) (g : G) (st : CStep)
+    (h : e ∈ g.edges) : e ∈ (createStep wrap t g st).edges := by
+  cases st <;> simp only [createStep]
+  · simpa using h
+  · exact foldl_edges_mono _ e (fun g d hg => foldl_edges_mono _ e (fun g op => nodeOp_mono wrap t d e g op) _ _ hg) _ _ h
+  · exact foldl_edges_mono _ e (fun g d hg => foldl_edges_mono _ e (fun g op => nodeOp_mono wrap t d e g op) _ _ hg) _ _ h
+
+/-- Whatever nodes are wrappers: for a dependency `d` of a task that wraps the node `d'`, the graph has the edge `d' → d`. -/
+theorem baseGraphGen_wrapper_edge (wrap : Nat → Option Nat) (P : Project) {t : TaskSpec} {d d' : Nat}
+    (ht : t ∈ P.tasks) (hd : d ∈ t.deps) (hw : wrap d = some d') : (nv d', nv d) ∈ (baseGraphGen wrap P).edges := by
+  unfold baseGraphGen
+  apply foldl_edges_has _ _ (fun g t he => foldl_edges_mono _ _ (fun g st => createStep_mono wrap t _ g st) _ _ he) _ _ t ht
+  intro g
+  have hstep : ∃ ops, CStep.forDeps ops ∈ createSteps ∧ NodeOp.wrapperEdge ∈ ops := by
+    simp [createSteps]
+  obtain ⟨ops, hs, hop⟩ := hstep
+  apply foldl_edges_has _ _ (fun g st => createStep_mono wrap t _ g st) _ _ _ hs
+  intro g
+  simp only [createStep]
+  apply foldl_edges_has _ _ (fun g d hg => foldl_edges_mono _ _ (fun g op => nodeOp_mono wrap t d _ g op) _ _ hg) _ _ d hd
+  intro g
+  apply foldl_edges_has _ _ (fun g op => nodeOp_mono wrap t d _ g op) _ _ _ hop
+  intro g
+  simp only [nodeOp, hw]
+  exact G.mem_addEdge_edges.2 (Or.inr rfl)
 
 end DagGen
 end Pytask
